@@ -942,6 +942,24 @@ func (c *ExprCtx) call(x *ast.CallExpr) TV {
 	case "isnil":
 		a := c.eval(x.Args[0])
 		return TV{V: VBool{T: c.equal(a, TV{T: types.Typ[types.UntypedNil]})}, T: boolT}
+	case "implements":
+		// implements(x, "pkg.Iface"): the interface-to-interface assertion x.(Iface)
+		// would succeed (same symbol as the executor uses for that assertion)
+		a := c.eval(x.Args[0])
+		iv, ok := a.V.(VIface)
+		if !ok {
+			fail("implements of non-interface")
+		}
+		lit, ok := x.Args[1].(*ast.BasicLit)
+		if !ok {
+			fail("implements needs a string literal")
+		}
+		tn := constant.StringVal(constant.MakeFromLiteral(lit.Value, lit.Kind, 0))
+		if iv.U == "nil_iface" || iv.U == "" {
+			return TV{C: constant.MakeBool(false)}
+		}
+		fn := c.w.st.declare("ta_"+sanitize(tn), []string{sortU}, sortBool)
+		return TV{V: VBool{T: app(fn, iv.U)}, T: boolT}
 	case "dyntype":
 		// dyntype(x, "pkg.T"): the dynamic type of interface x is known to be T
 		a := c.eval(x.Args[0])
